@@ -184,6 +184,28 @@ class Piece:
             self._fired(rule, '/%s/ x%d' % (pattern[:60], n))
         return self
 
+    def unwrap_call(self, rule, callee, count=None):
+        """`callee(X)` -> `X` (balanced parentheses; e.g. E3: `RwLock::new(X)` -> `X`)"""
+        n = 0
+        while True:
+            text = self.text
+            code = scan(text)
+            hit = None
+            for m in re.finditer(re.escape(callee) + r'\(', text):
+                if code[m.start()]:
+                    hit = m
+                    break
+            if not hit:
+                break
+            op = hit.end() - 1
+            cl = match_close(text, code, op)
+            self.text = text[:hit.start()] + text[op + 1:cl].strip() + text[cl + 1:]
+            n += 1
+        if n == 0 or (count is not None and n != count):
+            raise LostAnchor('rule %s in %s: expected %s of `%s(..)`, found %d' % (rule, self.label, count or '>=1', callee, n))
+        self._fired(rule, '`%s(X)` -> `X` x%d' % (callee, n))
+        return self
+
     def R1(self):
         return self.resub('R1', r'for &(mut\s+)?(\w+) in ([^\n{]+?) \{',
                           lambda m: 'for %s__r in %s { let %s%s = *%s__r;' % (m.group(2), m.group(3), m.group(1) or '', m.group(2), m.group(2)))
